@@ -151,6 +151,11 @@ pub struct Sys {
     pub relin_full: Option<RelinKeys>,
     pub msgs: Vec<Vec<u64>>,
     pub plains: Vec<Vec<u64>>,
+    /// destinations that already hold some other valid ciphertext (forms oracle)
+    pub dirty: Vec<Ciphertext>,
+    /// C02 (ring oracle without the forms oracle): run every operation once more in its destination form into ONE dirty
+    /// destination; a program that reuses buffers is a program, its result must decrypt to the same value
+    pub ring_dirty: std::sync::atomic::AtomicBool,
     pub sk: Vec<i64>,
     pub bgv: bool,
     pub special_bits: usize,
@@ -221,8 +226,10 @@ impl Sys {
         if sk.iter().any(|&v| v == i64::MAX) {
             return Err("secret key is not ternary under the independent inverse transform".into());
         }
+        env_real(seed, h64(&("e2-dirty", spec)));
+        let dirty = crate::he::dirty_destinations(&kit);
         let special_bits = if kit.ctx.using_keyswitching() { 64 - key_mods.last().unwrap().leading_zeros() as usize } else { 0 };
-        Ok(Sys { spec: spec.clone(), bgv: spec.scheme == Scheme::BGV, kit, seed, levels, moduli, qbits, relin1, relin_full, msgs, plains, sk, special_bits, budget_checks: Default::default(), zero_budget: Default::default(), min_positive_budget: std::sync::atomic::AtomicU64::new(u64::MAX) })
+        Ok(Sys { spec: spec.clone(), bgv: spec.scheme == Scheme::BGV, kit, seed, levels, moduli, qbits, relin1, relin_full, msgs, plains, dirty, ring_dirty: Default::default(), sk, special_bits, budget_checks: Default::default(), zero_budget: Default::default(), min_positive_budget: std::sync::atomic::AtomicU64::new(u64::MAX) })
     }
 
     pub fn n(&self) -> usize {
@@ -254,13 +261,30 @@ impl Sys {
     pub fn fresh(&self, msg: usize, sym: bool) -> Result<St, String> {
         env_real(self.seed, h64(&("e2-fresh", &self.spec, msg, sym)));
         let pt = self.kit.plain(&self.msgs[msg]);
+        // every second message is encrypted through the destination-argument form into a buffer that already holds another
+        // valid ciphertext (other level / size / representation / BGV factor): what the buffer held must not matter
+        let reuse = if msg % 2 == 1 && !self.dirty.is_empty() { Some(self.dirty[(msg / 2) % self.dirty.len()].clone()) } else { None };
         let ct = guard(|| {
             if sym {
-                let c = self.kit.enc.encrypt_symmetric_new(&pt);
-                // polynomials shorter than 9 words cannot hold a seed: the library then stores c1 itself
-                if c.contains_seed() { c.expand_seed(&self.kit.ctx) } else { c }
+                match reuse {
+                    Some(mut d) => {
+                        self.kit.enc.encrypt_symmetric(&pt, &mut d);
+                        d
+                    }
+                    None => {
+                        let c = self.kit.enc.encrypt_symmetric_new(&pt);
+                        // polynomials shorter than 9 words cannot hold a seed: the library then stores c1 itself
+                        if c.contains_seed() { c.expand_seed(&self.kit.ctx) } else { c }
+                    }
+                }
             } else {
-                self.kit.enc.encrypt_new(&pt)
+                match reuse {
+                    Some(mut d) => {
+                        self.kit.enc.encrypt(&pt, &mut d);
+                        d
+                    }
+                    None => self.kit.enc.encrypt_new(&pt),
+                }
             }
         })?;
         let n = self.n() as f64;
@@ -483,14 +507,38 @@ impl Sys {
         operands: &[&Ciphertext],
         forms: bool,
         f_inplace: &dyn Fn() -> Ciphertext,
-        f_dest: &dyn Fn() -> Ciphertext,
+        f_dest: &dyn Fn(Ciphertext) -> Ciphertext,
         f_new: &dyn Fn() -> Ciphertext,
         dis: &mut Vec<Dis>,
     ) -> Result<Ciphertext, String> {
         let before: Vec<u64> = operands.iter().map(|c| ct_fingerprint(c)).collect();
         let r1 = guard(f_inplace);
+        if !forms && !self.dirty.is_empty() && self.ring_dirty.load(std::sync::atomic::Ordering::Relaxed) {
+            if let Ok(c1) = &r1 {
+                let k = (h64(&(what, before.as_slice())) % self.dirty.len() as u64) as usize;
+                let rd = guard(|| f_dest(self.dirty[k].clone()));
+                let same = matches!(&rd, Ok(cd) if ct_fingerprint(cd) == ct_fingerprint(c1));
+                if !same {
+                    // different bytes are a C06 matter; here: does it still decrypt to the same message?
+                    let m1 = self.decrypt(c1);
+                    let md = rd.as_ref().map_err(|e| e.clone()).and_then(|cd| self.decrypt(cd));
+                    if m1.is_ok() && m1 != md {
+                        dis.push(Dis {
+                            class: "ring",
+                            key: format!("ring:{what}:result-depends-on-destination-contents"),
+                            expected: format!("the destination form into a buffer that held another ciphertext ({}) decrypts like the in-place form ({})", ct_meta(&self.dirty[k]), ct_meta(c1)),
+                            observed: match (&rd, &md) {
+                                (Ok(cd), Ok(_)) => format!("different message; result {}", ct_meta(cd)),
+                                (Ok(cd), Err(e)) => format!("decryption refused ({e}); result {}", ct_meta(cd)),
+                                (Err(e), _) => format!("operation refused: {e}"),
+                            },
+                        });
+                    }
+                }
+            }
+        }
         if forms {
-            let r2 = guard(f_dest);
+            let r2 = guard(|| f_dest(Ciphertext::new()));
             let r3 = guard(f_new);
             let after: Vec<u64> = operands.iter().map(|c| ct_fingerprint(c)).collect();
             if before != after {
@@ -505,6 +553,23 @@ impl Sys {
                     expected: "in-place, destination and _new forms accept/refuse alike".into(),
                     observed: format!("inplace={:?} dest={:?} new={:?}", a.is_ok(), b.is_ok(), c.is_ok()),
                 });
+            } else if a.is_ok() && (a == b && a == c) {
+                // the destination form once more, into destinations that already hold other valid ciphertexts
+                for (k, d0) in self.dirty.iter().enumerate() {
+                    let rd = guard(|| f_dest(d0.clone()));
+                    if fp(&rd) != b {
+                        dis.push(Dis {
+                            class: "forms",
+                            key: format!("forms:{what}:dirty-destination-differs"),
+                            expected: format!("the result does not depend on what the destination held (destination #{k} held: {}); fresh destination gives: {}", ct_meta(d0), ct_meta(r2.as_ref().unwrap())),
+                            observed: match &rd {
+                                Ok(c) => ct_meta(c),
+                                Err(e) => format!("refused: {e}"),
+                            },
+                        });
+                        break;
+                    }
+                }
             } else if a.is_ok() && (a != b || a != c) {
                 dis.push(Dis {
                     class: "forms",
@@ -531,8 +596,7 @@ impl Sys {
                         $inpl(&mut c);
                         c
                     },
-                    &|| {
-                        let mut d = Ciphertext::new();
+                    &|mut d: Ciphertext| {
                         $dest(&mut d);
                         d
                     },
@@ -571,8 +635,7 @@ impl Sys {
                         ev.$inpl(&mut c, b);
                         c
                     },
-                    &|| {
-                        let mut d = Ciphertext::new();
+                    &|mut d: Ciphertext| {
                         ev.$dest(a, b, &mut d);
                         d
                     },
@@ -603,8 +666,7 @@ impl Sys {
                         ev.$inpl(&mut c, p);
                         c
                     },
-                    &|| {
-                        let mut d = Ciphertext::new();
+                    &|mut d: Ciphertext| {
                         ev.$dest(a, p, &mut d);
                         d
                     },
@@ -1066,6 +1128,7 @@ impl AnySection for E2Section {
         let spec: ParamSpec = serde_json::from_value(case["spec"].clone()).map_err(|e| e.to_string())?;
         let prog = Prog::from_json(&case["prog"])?;
         let sys = Sys::new(&spec, self.seed)?;
+        sys.ring_dirty.store(self.oracles.ring && !self.oracles.forms, std::sync::atomic::Ordering::Relaxed);
         let mut dis = vec![];
         let _ = sys.run_prog(&prog, self.oracles, &mut dis);
         for d in dis {
@@ -1086,6 +1149,7 @@ impl AnySection for E2Section {
                 return;
             }
         };
+        sys.ring_dirty.store(self.oracles.ring && !self.oracles.forms, std::sync::atomic::Ordering::Relaxed);
         let mut states: Vec<St> = vec![];
         let mut conc: HashMap<u64, usize> = HashMap::new();
         let mut transitions = 0u64;
